@@ -53,7 +53,7 @@ def streams(draw):
         start = len(evs)
         n_in = draw(st.integers(1, 6))
         back = draw(st.integers(0, 40))
-        lo = max(1001, clk - back)
+        lo = max(1000, clk - back)   # 1000 = clock of OHx: sorts to the very start of the window
         hi = clk + draw(st.integers(0, 3))
         inner = []
         for _ in range(n_in):
